@@ -57,6 +57,17 @@ AttrsAll == {A0,
              [template |-> "both",   js |-> "none",   css |-> "inline"]}
 AttrsFew == {A0, [template |-> "none", js |-> "inline", css |-> "none"],
                  [template |-> "inline", js |-> "none", css |-> "file"]}
+\* blank definitions (empty string / whitespace only / empty file) at every level of a hierarchy, beside
+\* ordinary ones they override or are overridden by, and a blank member beside the other member (rejected)
+AttrsBlank == {A0,
+               [template |-> "inline",       js |-> "inline",       css |-> "file"],
+               [template |-> "none",         js |-> "inline-empty", css |-> "inline-ws"],
+               [template |-> "inline-ws",    js |-> "inline-ws",    css |-> "file-empty"],
+               [template |-> "file-empty",   js |-> "file-ws",      css |-> "inline-empty"],
+               [template |-> "none",         js |-> "both-empty",   css |-> "none"]}
+AttrsBlankFew == {A0,
+                  [template |-> "inline", js |-> "inline",       css |-> "inline"],
+                  [template |-> "none",   js |-> "inline-empty", css |-> "inline-ws"]}
 KindsAll == {"none", "null", "def"}
 KindsBasic == {"none", "def"}
 KindsNone == {"none"}
@@ -67,6 +78,7 @@ Rel1 == <<1>>
 AccAll == {"media"} \cup Pairs
 AccMedia == {"media"}
 AccMediaJs == {"media", "js"}
+AccRender == Pairs \cup {"render"}
 ViasBoth == Vias
 ViasCls == {"cls"}
 NoDevs == {}
@@ -120,7 +132,8 @@ AddClass == /\ N(kase) < MaxN /\ nacc = 0 /\ Valid(kase)
 
 MCAccess == /\ nacc < MaxAcc /\ N(kase) >= 1 /\ Valid(kase)
             /\ \E c \in Accessible(kase), via \in AccVias, a \in AccAttrs :
-                  IF a = "media" THEN AccessMedia(c, via) ELSE AccessAttr(c, a, via)
+                  IF a = "media" THEN AccessMedia(c, via)
+                  ELSE IF a = "render" THEN AccessRender(c, via) ELSE AccessAttr(c, a, via)
             /\ nacc' = nacc + 1
             /\ ist' = ImplStep(kase, ImplD, ist, ret'.c, ret'.a)
 
@@ -160,7 +173,12 @@ ExpClass(K, c) ==
    cons   |-> cons,
    prec   |-> [t \in Types |-> IF cons[t] THEN Prec(K, c, t) ELSE {}],
    mro    |-> mro.seq,
-   attr   |-> [p \in Pairs |-> AttrIn(mro.seq, K, p)]]
+   attr   |-> [p \in Pairs |-> Value(AttrIn(mro.seq, K, p))],
+   \* rendered tags: is a render determined (a template is defined), does the document carry markers at all
+   \* (the template text is not blank), and whose template / script / style it carries
+   render |-> LET a == [p \in Pairs |-> AttrIn(mro.seq, K, p)] IN
+              [determined |-> a["template"].src # 0, document |-> Content(a["template"].kind) = "text",
+               template |-> Shipped(a["template"]), js |-> Shipped(a["js"]), css |-> Shipped(a["css"])]]
 
 Export ==
   \/ N(kase) = 0 \/ nacc > 0
